@@ -75,7 +75,7 @@ def check_c14(prop, tier, replay=None):
     rng = random.Random(run.seed * 7 + 14)
     n = 10 if tier == "quick" else 200
     bases = []
-    for name in ("limits_profile", "core_dialect", "dags", "alap_profile", "chain_subslot"):
+    for name in ("limits_profile", "core_dialect", "dags", "alap_profile", "chain_subslot", "year_end"):
         bases += getattr(gen, name)(rng, n)
     bases += gen.calendars(rng, n, zones=[None])
     jobs, pairs, payload = [], [], {}
